@@ -54,8 +54,17 @@ def plan_C01(res, binary, hooked, tier, seed):
     return ("cases = behaviours of the bounded TLA+ models (all symbol programs up to the bound x props x dictionary sizes) plus seeded long walks; "
             "distinct = distinct (input bytes, api, options); non-trivial = at least one symbol decoded or an error expected"), TRUSTED_LZMA
 
+def header_layer(res, binary, tier, seed, prop):
+    """LzmaHeader.tla: every props byte x dictionary class x size-field class x option x truncation, model-checked
+    (props bijection, override / clamp rules) and replayed on the one-shot and streaming decoders."""
+    mc = run_tlc("MC_LzmaHeader", "MC_LzmaHeader.cfg", "%s_hdr" % prop, workers=8, timeout=600)
+    res.add_tlc(mc, ".lzma header reading: PropsBijection, PropsRejected, HeaderBytes (13/13/5), Override, Clamp, ShortIsShort; export of every header case with TLC's reading")
+    rep = run_harness(binary, ["lzma", "--property", prop, "--seed", seed, "--header-export", mc["out"]], "%s_hdr" % prop)
+    res.add_harness(rep, "every header case of MC_LzmaHeader instantiated with a payload coded under TLC's lc/lp/pb -> one-shot and Stream (one cut inside the header)")
+
 def plan_C08(res, binary, hooked, tier, seed):
     lzma_layer(res, binary, hooked, tier, seed, "C08", ["--options-matrix", tq(tier, 24, 2000)])
+    header_layer(res, binary, tier, seed, "C08")
     return ("behaviours of MC_LzmaDecoder ending by size / marker / overshoot / truncation, replayed on the raw decoder; plus, on the one-shot and streaming APIs, "
             "programs x {ReadFromHeader, ReadHeaderButUseProvided(None|n), UseProvided(None|n)} x header size field {all-ones, true, true+1, true-1, 0, 2^40} x marker present/absent x n in {true, +1, -1, 0} "
             "with the bytes consumed (13/13/5 header bytes + payload) compared on success; distinct = distinct (bytes, options)"), TRUSTED_LZMA
